@@ -14,6 +14,8 @@ from fractions import Fraction
 from . import core
 
 TOL_KEYS = {"mean", "variance"}
+ESCALATE = int(os.environ.get("VERIF_ESCALATE", "4"))              # quick tier: x cases when the source fingerprint differs
+ESCALATE_BUDGET_S = float(os.environ.get("VERIF_ESCALATE_BUDGET_S", "150"))
 
 
 def strip_private(o):
@@ -196,6 +198,14 @@ def run_property(mod, tier: str, seed: int, replay: str | None = None) -> int:
     tie_broken = [t for t in tie if not t["ok"]]
     tie_note = [{"unit": t["unit"], "state": t["state"], "problems": t["problems"], "diff": t.get("diff")} for t in tie_broken]
 
+    # --- has the modelled source changed since the model was last validated against it?  (explore more if so)
+    from . import fingerprint
+    try:
+        fp = fingerprint.compare()
+    except Exception as e:       # never let this bookkeeping decide anything
+        fp = {"pinned": False, "changed": [], "error": str(e)[:200]}
+    escalate = ESCALATE if (tier == "quick" and not replay and fp.get("changed")) else 1
+
     # --- cases
     if replay:
         rp = json.loads(open(replay).read())
@@ -226,6 +236,20 @@ def run_property(mod, tier: str, seed: int, replay: str | None = None) -> int:
         found += evaluate(mod, cases[a:a + B], res)
         if len([f for f in found if not is_known(f)]) > 20:      # witnesses of recorded findings do not stop the run early
             break
+
+    if escalate > 1 and not [f for f in found if not is_known(f)]:
+        # the source differs from the pinned fingerprint and the usual cases found nothing: more cases, within a time budget
+        n0 = mod.N_QUICK
+        k = n0
+        while k < n0 * escalate and time.time() - t0 < ESCALATE_BUDGET_S:
+            extra = []
+            for kk in range(k, min(k + B, n0 * escalate)):
+                extra.append(mod.gen_case(core.Rng.for_case(seed, prop, kk), kk, tier))
+            k += B
+            found += evaluate(mod, extra, res)
+            res.stats["escalated_cases"] += len(extra)
+            if [f for f in found if not is_known(f)]:
+                break
 
     reported_known = set()
     nrep = 0
@@ -320,6 +344,8 @@ def run_property(mod, tier: str, seed: int, replay: str | None = None) -> int:
         "trusted_base": core.TRUSTED_BASE + getattr(mod, "EXTRA_TRUST", []),
         "theorems": aud["theorems"], "axioms": aud.get("axioms", {}), "examples_non_vacuity": aud["examples"],
         "leanchecker": lc_note,
+        "source_fingerprint": {"pinned": fp.get("pinned"), "changed_definitions": fp.get("changed", [])[:40],
+                               "escalation": escalate, "escalated_cases": res.stats.get("escalated_cases", 0)},
         "source_tie": [{k: t.get(k) for k in ("unit", "source", "state", "digest", "theorem_files", "problems")} for t in tie],
         "evaluations": res.evaluations, "distinct_nontrivial": res.nontrivial,
         "rule": mod.RULE, "samples": res.samples[:3],
